@@ -20,7 +20,9 @@ if os.path.realpath(REPO) != "/repo":
     # mutation trials against a private copy of the repository get a private Coq build directory,
     # so that regenerated models never disturb the shared one
     COQ = "/var/tmp/verif-coq-" + hashlib.md5(os.path.realpath(REPO).encode()).hexdigest()[:8]
-    subprocess.run(["rsync", "-a", "--exclude", ".lock", os.path.join(VERIF, "coq") + "/", COQ + "/"], check=True)
+    for _try in range(3):    # files of the shared directory may be rewritten by a concurrent build (rsync exit 23/24): retry
+        if subprocess.run(["rsync", "-a", "--exclude", ".lock", "--exclude", "cases_*", os.path.join(VERIF, "coq") + "/", COQ + "/"]).returncode == 0:
+            break
     EVID = COQ + "-evidence"
     REPLAYS = COQ + "-replays"
 PY = "/venv/bin/python"
